@@ -376,6 +376,8 @@ pub fn c13_scenario(seed: u64, idx: u64) -> Scenario {
     let all_files: Vec<String> = t.entries.iter().filter(|e| matches!(e.kind, EntryKind::File(_)) && e.path.starts_with(&format!("{}/", r))).map(|e| format!("/{}", &e.path[r.len() + 1..])).collect();
     sc.tree = t;
     let n = rng.range(1, 6);
+    // now and then the owner takes the served directory (or a part of it) away between two connections
+    let owner_acts = rng.chance(1, 10);
     for i in 0..n {
         let (class, bytes) = match rng.below(13) {
             10 => {
@@ -411,6 +413,15 @@ pub fn c13_scenario(seed: u64, idx: u64) -> Scenario {
             transport_fault(&mut rng, &mut c, &["seg", "read_err", "short_write", "write_err", "client_gone", "handler_err"]);
         }
         sc.conns.push(c);
+    }
+    if owner_acts && n >= 2 {
+        let (kind, path) = match rng.below(5) {
+            0 | 1 => ("remove_tree", r.clone()),
+            2 => ("replace_with_empty_dir", r.clone()),
+            3 => ("remove_tree", "outer".to_string()),
+            _ => ("remove_file", format!("{}/file.txt", r)),
+        };
+        sc.owner_ops.push(OwnerOp { before_phase: rng.range(1, n - 1) as u32, kind: kind.into(), path });
     }
     sc
 }
